@@ -15,10 +15,14 @@ import (
 	"reflect"
 	"sort"
 	"strings"
+	"sync/atomic"
+
+	"github.com/pion/rtp"
 
 	"github.com/bluenviron/gortsplib/v5"
 	"github.com/bluenviron/gortsplib/v5/pkg/base"
 	"github.com/bluenviron/gortsplib/v5/pkg/description"
+	"github.com/bluenviron/gortsplib/v5/pkg/format"
 	"github.com/bluenviron/gortsplib/v5/pkg/liberrors"
 
 	"verif/internal/sysx"
@@ -86,6 +90,7 @@ type ctlWorld struct {
 	trans int
 	// refuse makes the application refuse SETUP with 404 (leaves a session in state initial)
 	refuse bool
+	gotRTP atomic.Int64
 }
 
 func (w *ctlWorld) close() {
@@ -143,6 +148,7 @@ func buildState(c CtlCase) (w *ctlWorld, ok bool, err error) {
 	if err != nil {
 		return w, false, herr("server start: %v", err)
 	}
+	w.app.OnRTP = func(*gortsplib.ServerSession, *description.Media, format.Format, *rtp.Packet) { w.gotRTP.Add(1) }
 	w.app.Hook = func(kind, _, _ string) *base.Response {
 		if kind == "setup" && w.refuse {
 			return &base.Response{StatusCode: base.StatusNotFound}
@@ -188,6 +194,44 @@ func buildState(c CtlCase) (w *ctlWorld, ok bool, err error) {
 	}
 	w.sid = w.ss.VerifC19SecretID()
 	return w, true, nil
+}
+
+// mediaFlows: in state play the server's next packet reaches the owner as an interleaved frame, in
+// state record the owner's next frame reaches the application.
+func (w *ctlWorld) mediaFlows(v sessView) *failure {
+	m := v.medias[0]
+	track := 0
+	if m.Type != description.MediaTypeVideo {
+		track = 1
+	}
+	pkt := &rtp.Packet{Header: rtp.Header{Version: 2, PayloadType: m.Formats[0].PayloadType(), SequenceNumber: 7000, Timestamp: 1234, SSRC: 0x0BADCAFE}, Payload: []byte{0x65, 1, 2, 3}}
+	get := &base.Request{Method: base.GetParameter, URL: sysx.MustURL(ctlURL), Header: base.Header{"Session": base.HeaderValue{w.sid}}}
+	if v.State == "play" {
+		if err := w.app.Stream.WritePacketRTP(m, pkt); err != nil {
+			return &failure{"owner-media-broken", "WritePacketRTP: " + err.Error()}
+		}
+		w.trans++
+		// frames are collected while the owner reads responses: ask until one has arrived
+		ok := sysx.WaitFor(func() bool {
+			res, err := w.owner.Do(get)
+			w.trans++
+			return err != nil || res.StatusCode != base.StatusOK || len(w.owner.Frames) > 0
+		})
+		if !ok || len(w.owner.Frames) == 0 {
+			return &failure{"owner-media-broken", "the server's packet did not reach the owner's interleaved connection"}
+		}
+		return nil
+	}
+	b, _ := pkt.Marshal()
+	frame := append([]byte{'$', byte(2 * track), byte(len(b) >> 8), byte(len(b))}, b...)
+	if err := w.owner.SendRaw(frame); err != nil {
+		return &failure{"owner-media-broken", "owner cannot write: " + err.Error()}
+	}
+	w.trans++
+	if !sysx.WaitFor(func() bool { return w.gotRTP.Load() > 0 }) {
+		return &failure{"owner-media-broken", "the owner's interleaved frame did not reach the application"}
+	}
+	return nil
 }
 
 type sessView struct {
@@ -377,6 +421,12 @@ func execCtl(c CtlCase) (o *ctlObs, reachable bool, f *failure, err error) {
 		return o, true, &failure{"transport-changed", fmt.Sprintf("%v -> %v", o.Before.tr, o.After.tr)}, nil
 	case !reflect.DeepEqual(o.After.conns, ownerConns):
 		return o, true, &failure{"conns-changed", fmt.Sprintf("%d -> %d connections attached", len(ownerConns), len(o.After.conns))}, nil
+	}
+	// media still flows on the owner's interleaved connection
+	if o.Before.pinned() {
+		if f := w.mediaFlows(o.Before); f != nil {
+			return o, true, f, nil
+		}
 	}
 	// the owner's next legitimate request still succeeds and sees the same state
 	res, e = w.owner.Do(&base.Request{Method: base.GetParameter, URL: sysx.MustURL(ctlURL), Header: base.Header{"Session": base.HeaderValue{w.sid}}})
